@@ -45,7 +45,8 @@ RULE = (
 ASSUMPTIONS = [
     "the reference step model is validated in every run against expm(-dt(H - E_shift)) by tensor Gauss-Hermite quadrature (order 5-6) on the dt ladder (ratio >= 3); NumPy/SciPy expm and the Fock engine are trusted",
     "pointwise comparison tolerance 1e-9 relative; comparisons whose outcome depends on a threshold (1e-3, 100, cos theta = 0, product 100) are skipped when the model's value lies within 1e-7 of it",
-    "real trial coefficients (the library conjugates rhf/uhf orbitals but not ghf/noci ones)",
+    "rhf/uhf trials (whose routines conjugate the coefficients consistently) also with a complex phase convention of their orbitals - the same state; ghf and noci trials with real coefficients only: those classes mix mo_coeff.T (ghf overlap and Green's function, noci Green's function) with mo_coeff.T.conj() (ghf half-rotated integrals, noci overlap), so complex coefficients are not a usable input of theirs as the library stands",
+    "the step model subtracts and compensates the mean-field values tr(L rdm1) analytically, so it is exact to O(dt^2) for complex values as well; generated 'arbitrary' rdm1 are Hermitian, the trial's own rdm1 is whatever the library computes",
     "start walkers have |overlap| bounded below (generator precondition)",
     "the hand-coded CISD/UCISD trials are given only as routines: their state is the bra their own overlap routine defines, fitted on random walkers as a bilinear form in the alpha and beta minors and verified on a second sample (residual <= 1e-9); force bias, local energy and the step are then compared with that state like for any other trial; CISD block energies at 2e-6 (the library contracts one term in single precision on purpose)",
 ]
@@ -96,6 +97,8 @@ def gen_cfg(seed, index, tier):
     # total energies of real molecules: a large constant (nuclear repulsion / frozen core, dt |E| of order 1-10) and a
     # deep core-like one-body level (dt |h1| of order 1); not in the ladder kind, whose dt range is chosen for
     # asymptotic behaviour of an order-1 Hamiltonian
+    # complex phase convention of the trial's orbital coefficients (same state)
+    m["trial_phase"] = random.Random(seed + 47).choice([0.0, 0.0, 0.7, -1.9]) if m["trial"] in ("rhf", "uhf") else 0.0
     r41 = random.Random(seed + 41)
     m["h0_offset"] = r41.choice([0.0, 0.0, 0.0, -480.0, 150.0]) if m["kind"] != "ladder" else 0.0
     m["core_level"] = r41.choice([0.0, 0.0, 0.0, -30.0]) if m["kind"] != "ladder" else 0.0
@@ -148,6 +151,17 @@ def build(cfg, dt=None):
     rs = np.random.RandomState((cfg["ham_seed"] + 77) % (2**32 - 1))
     s.ham_data_raw = dict(s.ham_data_raw)
     s.ham_data_raw["ene0"] = cfg.get("ene0", 0.0)
+    if cfg.get("trial_phase") and cfg["trial"] in ("rhf", "uhf"):
+        # the same state written with another (complex) phase convention of its orbital coefficients: nothing physical
+        # may change; the trial's own rdm1 is recomputed by the library from the new coefficients
+        ph = np.exp(1j * cfg["trial_phase"])
+        s.wave_data = dict(s.wave_data)
+        if cfg["trial"] == "rhf":
+            s.wave_data["mo_coeff"] = jnp.array(np.asarray(s.wave_data["mo_coeff"]) * ph)
+        else:
+            s.wave_data["mo_coeff"] = [jnp.array(np.asarray(c) * ph) for c in s.wave_data["mo_coeff"]]
+        s.wave_data.pop("rdm1")
+        s.wave_data["rdm1"] = jnp.array(s.trial.get_rdm1(s.wave_data))
     s.own_rdm1 = np.asarray(s.wave_data["rdm1"])
     if cfg["rdm1_kind"] == "arbitrary":
         r0 = np.asarray(s.wave_data["rdm1"])
